@@ -10,7 +10,7 @@ TRUSTED = ['numpy RNG contract only: rng.shuffle permutes in place, rng.choice(B
 
 HEADER = """From Coq Require Import List Arith Bool.
 Import ListNotations.
-Require Import LD.Shuffle LD.ShuffleTie LD.ShuffleFreeze LD.ShuffleCopies.
+Require Import LD.Shuffle LD.ShuffleTie LD.ShuffleFreeze LD.ShuffleCopies LD.LocalIter.
 """
 
 
@@ -185,13 +185,15 @@ def run(tier):
             failures.append(dict(kind='history', summary=f'{how} of a local shuffle n={n} buffer_size={B}: {out} is not a permutation', config=dict(kind='localcopy', n=n, B=B, how=how)))
         elif any(j > i + B - 1 for i, j in enumerate(out)):
             failures.append(dict(kind='history', summary=f'{how} of a local shuffle n={n} buffer_size={B}: {out} emits an example more than buffer_size - 1 positions early', config=dict(kind='localcopy', n=n, B=B, how=how)))
+    licases, limeta = [], []
     # two or three local-shuffle iterators in flight over one object, started at different times and advanced in any order
     # (random next()-scripts, plus the staggered ones in which an iterator makes its first step while another one is in its tail
     # phase): buffers are per iterator, so every iterator yields a permutation within its window
     for _ in range(600 if big else 120):
         n, B = r.randint(1, 6), r.randint(1, 7)
         k = r.choice([2, 2, 3])
-        ds = ld.new(list(range(n))).shuffle(True, rng=np.random.RandomState(r.randint(0, 999)), buffer_size=B)
+        lrng = RecRng(r.randint(0, 999))
+        ds = ld.new(list(range(n))).shuffle(True, rng=lrng, buffer_size=B)
         script = [i for i in range(k) for _j in range(n + 1)]
         mode = r.random()
         if mode < 0.5:
@@ -204,17 +206,31 @@ def run(tier):
             cut = r.randint(0, n)
             script = [0] * cut + [1] * (n + 1) + [0] * (n + 1 - cut) + [2] * (n + 1 if k == 3 else 0)
         its, outs2 = {}, {}
+        lops, order2 = [], []
         try:
             for i in script:
                 if i not in its:
                     its[i] = iter(ds); outs2[i] = []
+                    order2.append(i)
+                    lops.append('LStart')
+                nd = len(lrng.draws)
                 try:
                     outs2[i].append(int(next(its[i])))
                 except StopIteration:
                     pass
+                new = lrng.draws[nd:]
+                # one next() draws at most once: the choice of the element to pop, or the final shuffle of the left-overs
+                cdraw = [d[1] for d in new if d[0] == 'choice']
+                sdraw = [d[1] for d in new if d[0] == 'shuffle']
+                if len(new) > 1:
+                    failures.append(dict(kind='history', summary=f'one next() of a local-shuffle iterator drew {len(new)} times from the generator: {new}', config=dict(kind='local2', n=n, B=B, script=script)))
+                sig = f'(fun m => if Nat.eqb m {len(sdraw[0])} then {nl(sdraw[0])} else seq 0 m)' if sdraw else '(fun m => seq 0 m)'
+                lops.append(f'LNext {order2.index(i)}%nat {cdraw[0] if cdraw else 0}%nat {sig}')
         except Exception as e:
             failures.append(dict(kind='history', summary=f'local-shuffle iterators in flight (n={n}, buffer_size={B}, script {script}) raised {type(e).__name__}: {e}'[:400], config=dict(kind='local2', n=n, B=B, script=script)))
             continue
+        licases.append(f'({B}%nat, {nl(range(n))}, [{"; ".join(lops)}], [{"; ".join(nl(outs2[i]) for i in order2)}])')
+        limeta.append((n, B, script, [outs2[i] for i in order2]))
         for i, o in outs2.items():
             if sorted(o) != list(range(n)) or any(j > p + B - 1 for p, j in enumerate(o)):
                 failures.append(dict(kind='history', summary=f'local shuffle n={n} buffer_size={B}, iterators in flight advanced by the next()-script {script}: iterator {i} yielded {o} - '
@@ -394,7 +410,8 @@ def run(tier):
         fh.write('Definition lcases : list lcase := [\n' + ';\n'.join(lcases) + '\n].\n')
         fh.write('Definition fcases : list fcase := [\n' + ';\n'.join(fcases) + '\n].\n')
         fh.write('Definition ccases : list ccase := [\n' + ';\n'.join(ccases) + '\n].\n')
-        fh.write('Eval vm_compute in (bad rcase_ok 0 rcases).\nEval vm_compute in (bad lcase_ok 0 lcases).\nEval vm_compute in (fbad 0 fcases).\nEval vm_compute in (cbad 0 ccases).\n')
+        fh.write('Definition licases : list licase := [\n' + ';\n'.join(licases) + '\n].\n')
+        fh.write('Eval vm_compute in (bad rcase_ok 0 rcases).\nEval vm_compute in (bad lcase_ok 0 lcases).\nEval vm_compute in (fbad 0 fcases).\nEval vm_compute in (cbad 0 ccases).\nEval vm_compute in (libad 0 licases).\n')
     out = common.run_case_files([f])[f]
     parts = re.split(r'\n\s*=\s', '\n' + out)
     rb = [int(x) for x in re.findall(r'\d+', parts[1].split(':')[0])]
@@ -407,6 +424,10 @@ def run(tier):
         m = cmeta[i]
         failures.append(dict(kind='history', summary=f'plain copies of a reshuffle dataset: model (ShuffleCopies.v: every object has its own index array) and implementation disagree on n={m[0]} seed={m[1]} script={m[2]} impl={m[3]}'[:700],
                              config=dict(kind='copyobj', n=m[0], seed=m[1], script=m[2])))
+    for i in [int(x) for x in re.findall(r'\d+', parts[5].split(':')[0])]:
+        m = limeta[i]
+        failures.append(dict(kind='history', summary=f'local-shuffle iterators in flight: model (LocalIter.v: every iterator owns its buffer) and implementation disagree on n={m[0]} buffer_size={m[1]} next()-script={m[2]} impl={m[3]}'[:700],
+                             config=dict(kind='local2', n=m[0], B=m[1], script=m[2])))
     for i in rb:
         failures.append(dict(kind='history', summary=f'reshuffle: model and implementation disagree on n={rmeta[i][0]} script={rmeta[i][1]} impl={rmeta[i][2]}',
                              config=dict(kind='reshuffle', n=rmeta[i][0], script=rmeta[i][1])))
@@ -420,7 +441,7 @@ def run(tier):
                     'buffer sizes 1..n+1, value and key iteration, two iterators in flight; one-time shuffle / shuffled tiling / sampling without replacement: permutation predicates; '
                     'every RNG draw is recorded from numpy and fed to the model; non-trivial = n >= 2 (and >= 3 next() calls for reshuffle)',
                reshuffle_histories=len(rcases), interleaved_histories=sum(1 for m in rmeta if len(set(m[1])) > 1),
-               local_shuffle_cases=len(lcases), selection_cases=nsel, frozen_copy_histories=nfrozen, plain_copy_object_histories=ncopyobj,
+               local_shuffle_cases=len(lcases), selection_cases=nsel, frozen_copy_histories=nfrozen, plain_copy_object_histories=ncopyobj, local_iterator_histories=len(licases),
                traces_validated_against_impl=len(rcases) + len(lcases), disagreements_checked=len(rb) + len(lb),
                samples=[dict(n=rmeta[i][0], script=rmeta[i][1], outs=rmeta[i][2]) for i in (0, len(rmeta) // 2, len(rmeta) - 1)],
                exhaustive=False)
